@@ -28,7 +28,8 @@ def one(args):
 
 
 def main():
-    dirs = [a for a in sys.argv[1:] if not a.startswith("--")]
+    dirs = [a for a in sys.argv[1:] if not a.startswith("--") and os.path.isdir(a)]
+    only = [a for a in sys.argv[1:] if not a.startswith("--") and not os.path.isdir(a)]
     items = []
     if dirs:
         for d in dirs:
@@ -36,7 +37,7 @@ def main():
     else:
         for name in sorted(os.listdir(RDIR)) if os.path.isdir(RDIR) else []:
             pp = os.path.join(RDIR, name, "patch.diff")
-            if os.path.isfile(pp):
+            if os.path.isfile(pp) and (not only or any(name.startswith(o) or o in name for o in only)):
                 items.append((name, open(pp).read(), os.path.join(RDIR, name)))
     jobs = [(rid, p, text) for rid, text, _d in items for p in PROPS]
     res = {}
